@@ -121,8 +121,10 @@ CLAIMED = {
          "machine-checked two-table witness (known finding F13). The state machine is tied to TTFont.save by feeding it the OBSERVED write order, "
          "preloaded set, side-effect loads and raw/recompiled bytes of corpus fonts and comparing its predicted first/second-save bytes per table; "
          "pipelines are re-run in subprocesses under three PYTHONHASHSEED values; saves are checked not to disturb flags, dumps or later saves "
-         "(testing). F12 (hash-seed-dependent bsln/prop subsetting) repaired by a fix: commit.",
-         "Rocq proof of set-invariance and save idempotence/refutation + instrumented save correspondence + hash-seed subprocess sweeps"),
+         "(testing). ttFont.sortedTagList (the order keys()/save()/reorderTables use; recommended orders regenerated from the source) is proved "
+         "to depend on the SET of tables only, to list each table once, to equal 'recommended tags present, then the rest sorted', and to end "
+         "with DSIG; tied by correspondence on shuffled tag sets. F12 (hash-seed-dependent bsln/prop subsetting) repaired by a fix: commit.",
+         "Rocq proof of set-invariance, table-order and save idempotence/refutation + instrumented save correspondence + hash-seed subprocess sweeps"),
  "C01": ("Theorems over the save state machine (shared with C16), parametric in every table's codec: a table that was not loaded and "
          "that no compile side-effect-loads is written byte for byte from the reader whatever else is loaded or compiled "
          "(untouched_passthrough), a loaded table is written as the encoding of its content, a codec that is lossless on decoded values "
@@ -202,7 +204,11 @@ CLAIMED = {
          "moved default on an axis with unequal user-space distances, the new normalised coordinate of any retained point equals what "
          "normalising its user-space position against the new (minimum, default, maximum) gives -- user coordinates keep their meaning; "
          "pinning an axis (min = default = max) makes rebaseTent return at most the always-on delta set scaled by the tent's value at the "
-         "pin, for every tent shape and every case of _solve. Table-level instancing (gvar, HVAR, MVAR, GPOS/GDEF, avar, fvar, CFF2, GSUB "
+         "pin, for every tent shape and every case of _solve; and _solve is EXACT (solve_exact): for every tent continuous on the new range "
+         "and every x in it, the returned pieces (in old coordinates) sum to the original tent at x -- all mirroring / clipping / crossing / "
+         "closing-tent / EPSILON cases in one theorem; END TO END (rebase_exact) rebaseTent's output, evaluated with OpenType region "
+         "semantics at the renormalised location, equals the original tent on the whole new range, for every limit triple and all positive "
+         "user-space distances (pieces spanning the old default are shown to come in rise/fall pairs). Table-level instancing (gvar, HVAR, MVAR, GPOS/GDEF, avar, fvar, CFF2, GSUB "
          "FeatureVariations) is checked on the implementation: generated variable fonts (asymmetric axes, intermediate masters, avar, HVAR, "
          "variable kerning, conditional substitutions) and corpus fonts under random pins, ranges and moved defaults, compared through "
          "HarfBuzz at the same user-space locations within the rounding budget (testing). Known finding F17.",
